@@ -40,6 +40,7 @@ func (x *Exec) step(fr *Frame, ins ssa.Instruction, st *State) []alt {
 			// identity of its allocation site, grown by the index stores (below)
 			m := mk("list", "made:"+fr.ctx+"/"+funcKey(fr.fn)+"."+ins.Name(), nil)
 			st.mem["len:"+m.Aux] = cell{m, lv}
+			st.mem["fwd:"+m.Aux] = cell{m, m}
 			return one(st, m)
 		}
 		return one(st, tList(false, nil))
@@ -171,6 +172,9 @@ func (x *Exec) step(fr *Frame, ins ssa.Instruction, st *State) []alt {
 			}
 			if !has {
 				l2 := mk("list", l.Aux, l.Typ, append(append([]*Term{}, l.Args...), v)...)
+				if strings.HasPrefix(l.Aux, "made:") {
+					st.mem["fwd:"+l.Aux] = cell{mk("list", l.Aux, nil), l2}
+				}
 				var ks []string
 				for k, c := range st.mem {
 					if c.val == l {
